@@ -233,6 +233,14 @@ def _replay_uc(stem, vals):
             got = uc.parse(s)
             if want_prec and not np.isclose(got, want, rtol=1e-12):
                 msgs.append('parse(%r) = %r, ordinary precedence gives %r' % (s, got, want))
+        if want_prec:
+            for name in sorted(k for k in uc.unit if isinstance(k, str) and k and not any(ch in k for ch in ' ()*/^')):
+                try:
+                    got = uc.parse(name)
+                    if not np.isclose(got, uc.unit[name], rtol=1e-12, atol=0):
+                        msgs.append('parse(%r) = %r but the unit table holds %r' % (name, got, uc.unit[name]))
+                except Exception as e:
+                    msgs.append('parse(%r) raised %s: %s' % (name, type(e).__name__, e))
         if stem.startswith('parse.precedence') and '[' in stem:
             expr = stem[stem.index('[') + 1:stem.rindex(']')]
             if stem.startswith('parse.precedence.seeded['):
@@ -351,6 +359,16 @@ def parse_precedence(E, L):
             continue
         want = spec_eval(s, uc.unit)
         E.prove(nm, got == want)
+    # every name of the unit table, alone and inside a product, means its table entry (names that end in digits -- g0, c0, mu0, eps0, ... -- included)
+    for name in sorted(uc.unit):
+        if not isinstance(name, str) or not name or any(ch in name for ch in ' ()*/^'):
+            continue
+        try:
+            E.prove('parse.name_is_its_table_entry[%s]' % name, uc.parse(name) == uc.unit[name])
+            E.prove('parse.name_in_product[%s]' % name, uc.parse('kg*' + name + '/s') == uc.unit['kg'] * uc.unit[name] / uc.unit['s'])
+        except Exception as e:
+            E.prove('parse.accepts_name[%s]' % name, False)
+            E.note('parse(%r) raised %s: %s' % (name, type(e).__name__, e))
     for bad in ('(m', 'm)', 'm*/s', 'm $ s'):
         try:
             uc.parse(bad)
